@@ -52,6 +52,27 @@ def gen_random(cs, rnd, n):
         rows = [sorted_members(r) for r in rows]
         PC.add_rel(cs, "unique", cfg, PC.variant(cfg, unique=False), rows, rnd)
         cs.recipes[-1]["runs"][0]["stdin"] = cs.recipes[-1]["runs"][1]["stdin"] = hexs(PL.input_bytes(rows, rnd))   # escapes / spellings vary
+        if i % 6 == 1:
+            # what --unique has seen does not end with a file: the same rows given as several files
+            rows2 = [sorted_members(r) for r in PL.dup_rows(rnd, PL.rand_rows(rnd, rnd.choice([4, 8, 16]), few_keys=True, scalars=0.3), p=0.7)]
+            rows2 = PL.strip_field(rows2, "id")
+            lines = [PL.G.canonical(r) + b"\n" for r in rows2]
+            k = rnd.choice([2, 3])
+            cuts = sorted(rnd.sample(range(0, len(lines) + 1), k - 1)) if lines else [0] * (k - 1)
+            parts = [b"".join(lines[a:b]) for a, b in zip([0] + cuts, cuts + [len(lines)])]
+            files = [hexs(p_) for p_ in parts]
+            fargv = ["@FILE%d" % j for j in range(len(files))]
+            cs.add({"kind": "rel", "rel": "unique", "cfg": PL.mkcfg(unique=True), "input": [], "json": True,
+                    "runs": [{"argv": fargv + ["--unique"], "stdin": "", "files": files}, {"argv": fargv, "stdin": "", "files": files}]})
+        if i % 6 == 2:
+            # selections computed by functions: equal results are equal keys whatever produced them
+            e = rnd.choice(["(round .p)", "(floor .p)", "(ceil .p)", "(abs .p)", "(+ .p 0)", "(* .p 1)", "(/ .p 1)", "(- .p 0)", "(round (* .p 10))", "(parse (stringify .p))",
+                            "(as_number .p)", "(size (stringify .p))", "(push [] (round .p))", "(first [.p])".replace("[.p]", "(push [] .p)")])
+            nums = ["1", "1.0", "1.2", "0.7", "2", "2.5", "1.5", "3", "-1", "-1.2", "10", "9.6", "1e0", "12e-1"]
+            data = b"".join(b'{"p": %s, "q": %d}\n' % (rnd.choice(nums).encode(), rnd.randrange(2)) for _ in range(rnd.choice([6, 12, 24])))
+            sel = ["--select=%s =r" % e] + (["--select=.q =q"] if rnd.random() < 0.5 else [])
+            cs.add({"kind": "rel", "rel": "unique", "cfg": PL.mkcfg(unique=True), "input": [], "json": True,
+                    "runs": [{"argv": sel + ["--unique"], "stdin": hexs(data)}, {"argv": sel, "stdin": hexs(data)}]})
         if i % 5 == 0:
             c3 = PL.sparse_cfg(rnd)
             srows = PL.sparse_rows(rnd, rnd.choice([3, 6, 12, 20]))
